@@ -150,6 +150,7 @@ class Prop:
         stats = {"expected_call": 0, "expected_silent": 0, "graph_changes": 0}
         allow_k1 = cfg.get("allow_k1", False)
         world.allow_k3 = cfg.get("allow_k3", False)
+        self._allow_k4 = cfg.get("allow_k4", False)
         ops = trace["ops"]
         for i, op in enumerate(ops):
             env.begin_op(i, op)
@@ -237,8 +238,23 @@ class Prop:
                 # default as the old value: that transient graph counts as well
                 tm = dry.mnodes[dry.idx(op.get("o", 0))]
                 if tm.has_extra and tm.extra is G.UNSET and tm.extra_default is not None:
+                    cnt0 = {h.id: G.match_counts(h.expr, dry.model(h.root_uid))
+                            for h in handlers}
                     tm.extra = tm.extra_default
-                    dries.append(dry.dry_clone())
+                    trans = dry.dry_clone()
+                    dries.append(trans)
+                    if not self._allow_k4:
+                        # known finding K4: the maintainers "remove" from that default
+                        # hooks it never got; if the default object carries equal hooks
+                        # of the same handler along another path, those are lost
+                        for h in handlers:
+                            a = cnt0[h.id]
+                            b = G.match_counts(h.expr, dry.model(h.root_uid))
+                            if any(a.get(key, 0) and b[key] > a[key] for key in b):
+                                env.log("k4-guard-skip", k)
+                                env.probe("k4-guard-skip")
+                                env.token("k4skip")
+                                return
             dry.apply(op, i)
             for h in handlers:
                 if any(G.match(h.expr, d.model(h.root_uid))[2] for d in dries):
